@@ -18,11 +18,7 @@ From OmegaGen Require Import FixpointGen Gr1Gen.
 def prove(ctx):
     with ctx.coq_lock():
         gen_games.ensure_gr1(ctx)
-        ctx.prove('GenProofs/FixpointProofs.v')
-        ctx.prove('GenProofs/StreettProofs.v')
-        ctx.prove('GenProofs/RabinProofs.v')
-        ctx.prove('GenProofs/DualityProofs.v')
-        ctx.prove('Properties/C04.v')
+        ctx.prove_with_deps('Properties/C04.v')
     ctx.trusted.append(
         'translator tie T: omega/games/gr1.py (solve_rabin_game, '
         '_cycle_inside, _attractor_inside, solve_streett_game, '
@@ -46,8 +42,9 @@ def run_rabin(g):
     return out
 
 
-def dual_game(g):
-    """The opponent's game: roles swapped, liveness complemented."""
+def dual_game(g, complement=True, build_arena=True):
+    """The opponent's game: roles swapped, liveness complemented (or, with
+    complement=False, the same game with the two players exchanged)."""
     ar = g['ar']
     decl = dict(const=dict(g['decl'].get('const', {})),
                 env=dict(g['decl']['sys']), sys=dict(g['decl']['env']))
@@ -75,9 +72,14 @@ def dual_game(g):
         return out
     d['E'] = swap2(g['S'])
     d['S'] = swap2(g['E'])
-    d['P'] = [swap1(r, True) for r in g['R']]
-    d['R'] = [swap1(p, True) for p in g['P']]
+    if complement:
+        d['P'] = [swap1(r, True) for r in g['R']]
+        d['R'] = [swap1(p, True) for p in g['P']]
+    else:
+        d['P'] = [swap1(p, False) for p in g['P']]
+        d['R'] = [swap1(r, False) for r in g['R']]
     d['ar'] = dar
+    d['swap1'] = swap1
     return d
 
 
@@ -103,6 +105,25 @@ def duality_real(g):
     return bad
 
 
+def run_reused(g, moore, plus_one):
+    """Rabin solve on an automaton already used with the players in the other
+    roles; region indexed as in the role-swapped arena."""
+    import omega.games.gr1 as gr1
+    ar = g['ar']
+    aut = gr1games.load(g)
+    aut.moore, aut.plus_one = moore, plus_one
+    gr1.solve_rabin_game(aut)
+    d = dual_game(g, complement=False)
+    env, sys_ = list(aut.varlist['env']), list(aut.varlist['sys'])
+    aut.varlist['env'], aut.varlist['sys'] = sys_, env
+    aut.action['env'], aut.action['sys'] = aut.action['sys'], aut.action['env']
+    zk, _, _ = gr1.solve_rabin_game(aut)
+    ztab = d['swap1'](ar.table1(zk[-1]), False)
+    aut.varlist['env'], aut.varlist['sys'] = env, sys_
+    aut.prime_varlists()
+    return d, ztab
+
+
 def coq_group(i, g, impl):
     ar = g['ar']
     n = f'{ar.nc} {ar.nx} {ar.ny}'
@@ -118,7 +139,18 @@ def coq_group(i, g, impl):
             f'eq3 (tt3 {n} (snd (fst t))) {games.litn(yki)} && '
             f'eq5 (tt5 {n} (snd t)) {games.litn(xkijr)}) ({call})')
         keys.append((moore, plus_one))
-    return (gr1games.coq_defs(p, g), terms), keys
+    defs = gr1games.coq_defs(p, g)
+    if 'reused' in g:
+        (moore, plus_one), d, ztab = g['reused']
+        dar = d['ar']
+        dn = f'{dar.nc} {dar.nx} {dar.ny}'
+        defs += '\n' + gr1games.coq_defs(p + 'd', d)
+        call = (f'Gr1Gen.solve_rabin_game {dn} {p}dE {p}dS {p}dP {p}dR '
+                f'{b(moore)} {b(plus_one)} {fuel}')
+        terms.append(f'eq1 (tt1 {dn} (last (fst (fst ({call}))) bfalse)) '
+                     f'{games.litn(ztab)}')
+        keys.append(('reused-after-role-swap', moore, plus_one))
+    return (defs, terms), keys
 
 
 def oracle_check(g, impl):
@@ -136,6 +168,18 @@ def oracle_check(g, impl):
                 f'(moore={moore}, plus_one={plus_one})',
                 dict(gr1games.case_of(g), moore=moore, plus_one=plus_one),
                 expected=exp, got=z)
+    for moore, plus_one in MODES[1:3]:
+        d, ztab = run_reused(g, moore, plus_one)
+        exd = gr1games.Explicit(d)
+        exp = exd.table(exd.rabin(moore, plus_one))
+        if exp != ztab:
+            return Failing(
+                'solve_rabin_game on an automaton re-used after the players '
+                f'exchanged roles (moore={moore}, plus_one={plus_one}) returns '
+                'a region different from the exchanged game\'s',
+                dict(gr1games.case_of(g), moore=moore, plus_one=plus_one,
+                     scenario='reused-after-role-swap'),
+                expected=exp, got=ztab)
     bad = duality_real(g)
     if bad:
         return Failing(
@@ -157,6 +201,9 @@ def correspond(ctx):
                                max_states)
         try:
             impl = run_rabin(g)
+            if i % 2 == 0:
+                mode = MODES[(i // 2) % 4]
+                g['reused'] = (mode,) + run_reused(g, *mode)
             bad = duality_real(g)
         except Exception as e:
             return [Mismatch('solver raised', gr1games.case_of(g),
@@ -186,9 +233,13 @@ def correspond(ctx):
         if not ok:
             mism.append(Mismatch(
                 'solve_rabin_game (iterates zk, yki, xkijr) differs from the '
-                'translated model', dict(gr1games.case_of(gs[i]),
-                                         moore=k[0], plus_one=k[1]),
-                impl=impls[i][k][0]))
+                'translated model' + (' on an automaton re-used after the '
+                                      'players exchanged roles'
+                                      if k[0] == 'reused-after-role-swap'
+                                      else ''),
+                dict(gr1games.case_of(gs[i]), moore=k[-2], plus_one=k[-1],
+                     scenario=str(k[0])),
+                impl=(impls[i][k][0] if k in impls[i] else None)))
     for g, impl in list(zip(gs, impls))[:8]:
         f = oracle_check(g, impl)
         if f:
